@@ -10,12 +10,18 @@ EX16_RE = re.compile(r'\(\*\* ([^\n]*?) \*\)\s*\nExample (listing16_\d+) : map s
 EX_RE = re.compile(r'\(\*\* ([^\n]*?) \*\)\s*\nExample (listing_\d+) : map show \(template \((.*?)\)\) =\s*\[(.*?)\]\.', re.S)
 
 
+CALL_DECL = ('unsigned char a, b, c, i; void f() { c = 1; } unsigned char g() { return a; } unsigned char h(unsigned char x) { return x + 1; } '
+             'unsigned char k(unsigned char x, unsigned char y) { return x + y; } void set(unsigned char x) { c = x; } '
+             'unsigned char m(unsigned char x) { if (x < b) return b; return x; }')
+
 # further template files: (file, regex kind, declarations the statements are compiled under)
 MORE = [('GenSplit.v', 'slisting', 'stemplate',
          'superchip unsigned char c, d; superchip unsigned short s, t; superchip unsigned char *p; superchip unsigned char arr[4]; unsigned char a;'),
         ('GenLoops.v', 'llisting', 'ltemplate', 'unsigned char a, b, c, i;'),
         ('GenIf.v', 'ilisting', None, 'unsigned char a, b, c;'),
-        ('GenCtl.v', 'clisting', None, 'unsigned char a, b, c, i;')]
+        ('GenCtl.v', 'clisting', None, 'unsigned char a, b, c, i;'),
+        # calls: a comment `function NAME` pins the body of that function instead of a statement of main
+        ('GenCall.v', 'flisting', None, CALL_DECL)]
 
 
 def more_listings():
@@ -75,14 +81,15 @@ def run_gentpl():
         if os.path.exists(os.path.join(COQ, 'Model', fn)) and not any(m[0].startswith(ex) for m in more):
             raise HarnessError('cannot find the %s examples of Model/%s' % (ex, fn))
     ls = ls + more
-    jobs = ''.join(compile_job(name, '%s void main() { %s }' % (decl, stmt), args=['-O0'], want=['funcs']) for (name, stmt, term, exp, decl) in ls)
+    jobs = ''.join(compile_job(name, '%s void main() { %s }' % (decl, '' if stmt.startswith('function ') else stmt), args=['-O0'], want=['funcs'])
+                   for (name, stmt, term, exp, decl) in ls)
     res = run_ccv(jobs, tag='gentpl')
     mism = []
     for (name, stmt, term, exp, decl), r in zip(ls, res):
         if r.get('status') != 'ok':
             mism.append({'id': name, 'statement': stmt, 'why': 'the statement is rejected: %s' % (r.get('err') or r.get('status'),)})
             continue
-        main = [f for f in r['funcs'] if f['name'] == 'main'][0]
+        main = [f for f in r['funcs'] if f['name'] == (stmt.split()[1] if stmt.startswith('function ') else 'main')][0]
         got = [show(tuple(x)) for x in main['gen'] if x[0] in ('I', 'L', 'N')]
         if got != exp:
             mism.append({'id': name, 'statement': stmt, 'schema': term, 'why': 'the generator emits another sequence than template (%s)' % term,
